@@ -258,6 +258,29 @@ Theorem hiding_values : forall payload ds x,
 Proof. exact derivable_values. Qed.
 Print Assumptions hiding_values.
 
+(* hiding, on issued SD-JWTs: every leaf value (string, number, boolean) an observer of the payload and of the
+   presented disclosures can derive belongs to an ALWAYS-VISIBLE claim (the specification with nothing selected;
+   Hiding.clear_payload_visible: the clear part of the issued payload is exactly that, plus the registered iss / cnf /
+   _sd_alg) or to the value of a PRESENTED disclosure.  The value of an undisclosed claim is derivable only where
+   it coincides with one of those. *)
+Theorem hiding : forall o claims sel payload ds x,
+  issue o claims = Ok (payload, ds) ->
+  derivable (knowledge payload (choose sel ds)) (TVal x) -> leaf x ->
+  sub x (reveal o [] claims) \/ x = VStr (alg_name (o_alg o)) \/ (exists d, In d (choose sel ds) /\ sub x (d_val d)).
+Proof.
+  intros o claims sel payload ds x Hi Hd Hl. apply derivable_values in Hd as [H|[H|(a & c & e & s & n & v & ->)]].
+  - destruct (clear_payload_visible o claims payload ds x Hi Hl H) as [H1|H1]; [left|right; left]; assumption.
+  - right; right. exact H.
+  - contradiction.
+Qed.
+Print Assumptions hiding.
+
+Theorem clear_part_of_issued_payload_is_visible : forall o claims payload ds x,
+  issue o claims = Ok (payload, ds) -> leaf x -> sub x payload ->
+  sub x (reveal o [] claims) \/ x = VStr (alg_name (o_alg o)).
+Proof. exact clear_payload_visible. Qed.
+Print Assumptions clear_part_of_issued_payload_is_visible.
+
 (* non-vacuity: a chosen claim IS derivable, its digest is recomputable; the unchosen sibling's salt is not *)
 Example hiding_example :
   match issue o5 claims5 with
@@ -341,6 +364,27 @@ Example rejections_example :
                     (pres addr (Some {| hb_key := 1; hb_nonce := "m"; hb_aud := ""; hb_ok := true; hb_iat := Some 990%Z |}))) = false /\
       is_ok (verify {| vo_required := true; vo_nonce := "n"; vo_aud := ""; vo_now := 1000; vo_leeway := 60 |}
                     (pres addr (Some {| hb_key := 1; hb_nonce := "n"; hb_aud := ""; hb_ok := true; hb_iat := Some 990%Z |}))) = true
+  | _ => False
+  end.
+Proof. vm_compute. repeat split. Qed.
+
+(* VC-form SD-JWT (Credential.MakeSDJWT, v2): _sd_alg (sha-384) and the digests sit inside the "vc" claim; the
+   verifier reads the hash from there and outputs the credential with the chosen subject claims *)
+Example vc_form_example :
+  let o := {| o_v5 := false; o_alg := 384; o_structured := true; o_decoys := 0; o_nonsd := [[SKey "id"]];
+              o_always := []; o_recursive := []; o_iss := ""; o_cnf := None |} in
+  match issue_vc o [("id", VStr "did:h"); ("degree", VObj [("type", VStr "BSc"); ("name", VStr "CS")])]
+                 [("iss", VStr "did:i"); ("nbf", VNum 900)] [("type", VArr [VStr "VerifiableCredential"])] with
+  | Ok (payload, ds) =>
+      get_alg payload = Ok 384%N /\
+      match verify vo0 {| p_sig_ok := true; p_payload := payload; p_discs := choose [[SKey "degree"; SKey "name"]] ds; p_hb := None |} with
+      | Ok out => equiv out (VObj [("iss", VStr "did:i"); ("nbf", VNum 900);
+                                   ("vc", VObj [("type", VArr [VStr "VerifiableCredential"]);
+                                                ("credentialSubject", VObj [("id", VStr "did:h"); ("degree", VObj [("name", VStr "CS")])])])]) = true
+      | _ => False
+      end /\
+      is_ok (verify {| vo_required := false; vo_nonce := ""; vo_aud := ""; vo_now := 100; vo_leeway := 60 |}
+                    {| p_sig_ok := true; p_payload := payload; p_discs := []; p_hb := None |}) = false   (* before nbf *)
   | _ => False
   end.
 Proof. vm_compute. repeat split. Qed.
